@@ -977,6 +977,12 @@ func (ev *evalEnv) applySpec(sp *SpecFn, e *Expr) tv {
 		case "bool":
 			sorts = append(sorts, "Bool")
 			terms = append(terms, args[i].v.T[0])
+		case "iface":
+			if args[i].v.K != KIface || len(args[i].v.T) < 2 {
+				ev.fail("spec %s: argument %d must be an interface value", sp.Name, i)
+			}
+			sorts = append(sorts, "Int", "Int")
+			terms = append(terms, args[i].v.T[0], args[i].v.T[1])
 		default:
 			sorts = append(sorts, "Int")
 			terms = append(terms, args[i].v.T[0])
@@ -999,7 +1005,7 @@ func (ev *evalEnv) applySpec(sp *SpecFn, e *Expr) tv {
 	// depth-1 unfolding (only outside quantifier scopes whose bound variables occur: still sound inside,
 	// since the equation is universally valid; emitted inline as an implication-free conjunct is not
 	// possible inside a quantifier body, so unfold only ground occurrences)
-	if len(ev.bound) == 0 && ev.depth == 0 && sp.unfolding < 1 {
+	if sp.Body != nil && len(ev.bound) == 0 && ev.depth == 0 && sp.unfolding < 1 {
 		key := "unfold|" + app
 		if !c.em.declared[key] {
 			c.em.declared[key] = true
